@@ -21,6 +21,14 @@ Has(f) == f \in DOMAIN Ev
 V(tag, cond, info) == IF cond THEN TRUE ELSE PrintT("VIOL " \o ToJson(<<tag, l, info>>))
 Breach(info)       == PrintT("BREACH " \o ToJson(<<l, info>>))
 
+\* subset / equality of two (possibly very large, lazily defined) sets by cardinalities: TLC enumerates and
+\* sorts each set once, where `\subseteq` asks the right-hand side for membership element by element
+SubsetC(A, X) == Cardinality(A \cup X) = Cardinality(X)
+EqualC(A, X)  == SubsetC(A, X) /\ Cardinality(A) = Cardinality(X)
+\* (violation reports quote at most 40 elements)
+Brief(sq)   == IF Len(sq) <= 40 THEN sq ELSE SubSeq(sq, 1, 40) \o <<"... of", Len(sq)>>
+BriefSet(S) == IF Cardinality(S) <= 40 THEN S ELSE <<"a set of", Cardinality(S)>>
+
 B(off) == off \div pw
 InDomain(off) == off >= 0 /\ off <= len - 1
 
@@ -75,10 +83,10 @@ OpOk ==
          IF InDomain(Ev.a) /\ InDomain(Ev.b) /\ Ev.a <= Ev.b /\ R!CanQuery(Ev.t)
          THEN LET c == B(Ev.a) d == B(Ev.b) IN
               /\ vals' = vals /\ now' = Ev.t
-              /\ V("YIELD", R!NoDup(Ev.res) /\ R!Range(Ev.res) \subseteq R!Expect(c, d, Ev.t),
-                   <<"query buckets", c, d, "t", Ev.t, "yielded", Ev.res, "allowed", R!Expect(c, d, Ev.t)>>)
-              /\ (Ev.take < 0 => V("COMPLETE", R!Range(Ev.res) = R!Expect(c, d, Ev.t),
-                   <<"query buckets", c, d, "t", Ev.t, "yielded", Ev.res, "expected", R!Expect(c, d, Ev.t)>>))
+              /\ V("YIELD", R!NoDup(Ev.res) /\ SubsetC(R!Range(Ev.res), R!Expect(c, d, Ev.t)),
+                   <<"query buckets", c, d, "t", Ev.t, "yielded", Brief(Ev.res), "allowed", BriefSet(R!Expect(c, d, Ev.t))>>)
+              /\ (Ev.take < 0 => V("COMPLETE", EqualC(R!Range(Ev.res), R!Expect(c, d, Ev.t)),
+                   <<"query buckets", c, d, "t", Ev.t, "yielded", Brief(Ev.res), "expected", BriefSet(R!Expect(c, d, Ev.t))>>))
               /\ (Ev.take >= 0 => V("COMPLETE", Len(Ev.res) = IF Cardinality(R!Expect(c, d, Ev.t)) < Ev.take THEN Cardinality(R!Expect(c, d, Ev.t)) ELSE Ev.take,
                    <<"take", Ev.take, "yielded", Ev.res, "available", R!Expect(c, d, Ev.t)>>))
               /\ (Has("ch") => V("KEEP", KeepsLive(vals, Ev.t), "an unexpired value lost a stored copy"))
